@@ -21,11 +21,17 @@ from sa.engine.report import VERIF, Finding, RuleReport, known_open_keys
 PROPS = [f"C{i:02d}" for i in range(1, 21)]
 
 
-def run_rules(prop: str, ctx: Ctx) -> list[RuleReport]:
+def run_rules(prop: str, ctx: Ctx, raise_on_error: bool = True) -> list[RuleReport]:
     mod = importlib.import_module(f"sa.rules.{prop.lower()}")
     reports = []
+    errors = []
     for rule in mod.RULES:
-        rep = rule(ctx)
+        try:
+            rep = rule(ctx)
+        except AnalysisError as exc:
+            # one rule that cannot decide must not hide what the other rules of the property found
+            errors.append(f"{rule.__name__}: {exc}")
+            continue
         if isinstance(rep, list):
             reports.extend(rep)
         else:
@@ -34,10 +40,13 @@ def run_rules(prop: str, ctx: Ctx) -> list[RuleReport]:
     for rep in reports:
         floor = floors.get(rep.rule)
         if floor is not None and rep.obligations < floor:
-            raise AnalysisError(
+            errors.append(
                 f"{rep.rule}: only {rep.obligations} obligations found, floor confirmed by hand is {floor} "
                 f"(an anchor vanished or an idiom is no longer recognised)"
             )
+    ctx.analysis_errors = errors
+    if errors and raise_on_error:
+        raise AnalysisError("; ".join(errors))
     return reports
 
 
@@ -102,7 +111,7 @@ def main(argv=None) -> int:
     reports: list[RuleReport] = []
     try:
         ctx = Ctx(args.root, tier=args.tier)
-        reports = run_rules(prop, ctx)
+        reports = run_rules(prop, ctx, raise_on_error=False)
     except AnalysisError as exc:
         print(f"ANALYSIS-ERROR property={prop}: {exc}")
         if not args.no_evidence:
@@ -139,8 +148,8 @@ def main(argv=None) -> int:
               f"residual={len(r.residual)} units={len(r.units)}")
 
     extra = {}
-    selftest_error = None
-    if args.tier == "thorough" and not new:
+    selftest_error = "; ".join(ctx.analysis_errors) if getattr(ctx, "analysis_errors", None) else None
+    if args.tier == "thorough" and not new and not selftest_error:
         from sa.selftest.harness import run_selftest
 
         try:
